@@ -174,6 +174,30 @@ class ExprCanon(ast.NodeTransformer):
         if isinstance(f, ast.Name) and f.id not in self.bound and len(node.args) == 1 and not node.keywords and (
                 (f.id == "dict" and isinstance(node.args[0], ast.Dict)) or (f.id == "list" and isinstance(node.args[0], ast.List)) or (f.id == "set" and isinstance(node.args[0], ast.Set))):
             return node.args[0]
+        # map(f, xs) -> (f(_m) for _m in xs)   (one iterable, f a plain function reference)
+        if isinstance(f, ast.Name) and f.id == "map" and "map" not in self.bound and len(node.args) == 2 and not node.keywords and isinstance(node.args[0], (ast.Name, ast.Attribute)) \
+                and not isinstance(node.args[1], ast.Starred):
+            call = self.visit(ast.Call(func=node.args[0], args=[ast.Name(id="_m", ctx=ast.Load())], keywords=[]))
+            return ast.copy_location(ast.GeneratorExp(elt=call, generators=[ast.comprehension(target=ast.Name(id="_m", ctx=ast.Store()), iter=node.args[1], ifs=[], is_async=0)]), node)
+        # graphql-core: build_schema(src, ...) is build_ast_schema(parse(src), ...) (library source checked once)
+        if isinstance(f, ast.Name) and f.id == "build_schema" and "build_schema" not in self.bound and len(node.args) == 1 and not isinstance(node.args[0], ast.Starred) \
+                and all(k.arg in ("assume_valid", "assume_valid_sdl") for k in node.keywords) and _lib_build_schema_is_parse_then_build():
+            inner = ast.Call(func=ast.Name(id="parse", ctx=ast.Load()), args=[node.args[0]], keywords=[])
+            return ast.copy_location(ast.Call(func=ast.Name(id="build_ast_schema", ctx=ast.Load()), args=[inner], keywords=node.keywords), node)
+        # sep.join over a one-element display, or over a comprehension without filter on a one-element display: the element itself
+        if isinstance(f, ast.Attribute) and f.attr == "join" and isinstance(f.value, ast.Constant) and isinstance(f.value.value, str) and len(node.args) == 1 and not node.keywords:
+            a0 = node.args[0]
+            if isinstance(a0, (ast.List, ast.Tuple)) and len(a0.elts) == 1 and not isinstance(a0.elts[0], ast.Starred):
+                return a0.elts[0]
+            if isinstance(a0, (ast.ListComp, ast.GeneratorExp)) and len(a0.generators) == 1 and not a0.generators[0].ifs and isinstance(a0.generators[0].target, ast.Name) \
+                    and isinstance(a0.generators[0].iter, (ast.List, ast.Tuple)) and len(a0.generators[0].iter.elts) == 1 and not isinstance(a0.generators[0].iter.elts[0], ast.Starred):
+                import copy as _c
+                tgt, item = a0.generators[0].target.id, a0.generators[0].iter.elts[0]
+
+                class _S(ast.NodeTransformer):
+                    def visit_Name(self, n):
+                        return _c.deepcopy(item) if n.id == tgt and isinstance(n.ctx, ast.Load) else n
+                return _S().visit(_c.deepcopy(a0.elt))
         # consumers that only iterate their argument: a list comprehension there is read like a generator expression
         if len(node.args) == 1 and not node.keywords and isinstance(node.args[0], ast.ListComp) and (
                 (isinstance(f, ast.Attribute) and f.attr == "join") or
@@ -258,6 +282,33 @@ class ExprCanon(ast.NodeTransformer):
         return self._with_bound(names, lambda: self.generic_visit(node))
 
     visit_ListComp = visit_SetComp = visit_GeneratorExp = visit_DictComp = _comp
+
+
+_BUILD_SCHEMA_OK = None
+
+
+def _lib_build_schema_is_parse_then_build() -> bool:
+    """oracle: the installed graphql-core defines build_schema(source, ...) as build_ast_schema(parse(source, ...), assume_valid=..., assume_valid_sdl=...)"""
+    global _BUILD_SCHEMA_OK
+    if _BUILD_SCHEMA_OK is None:
+        _BUILD_SCHEMA_OK = False
+        try:
+            import importlib.util
+            spec = importlib.util.find_spec("graphql")
+            base = os.path.dirname(spec.origin) if spec and spec.origin else None
+            src = open(os.path.join(base, "utilities", "build_ast_schema.py")).read() if base else ""
+            for n in ast.walk(ast.parse(src)):
+                if isinstance(n, ast.FunctionDef) and n.name == "build_schema":
+                    body = [b for b in n.body if not (isinstance(b, ast.Expr) and isinstance(b.value, ast.Constant))]
+                    if len(body) == 1 and isinstance(body[0], ast.Return) and isinstance(body[0].value, ast.Call) and getattr(body[0].value.func, "id", "") == "build_ast_schema":
+                        c = body[0].value
+                        inner = c.args[0] if c.args else None
+                        if isinstance(inner, ast.Call) and getattr(inner.func, "id", "") == "parse" and inner.args and getattr(inner.args[0], "id", "") == n.args.args[0].arg \
+                                and {k.arg: getattr(k.value, "id", None) for k in c.keywords} == {"assume_valid": "assume_valid", "assume_valid_sdl": "assume_valid_sdl"}:
+                            _BUILD_SCHEMA_OK = True
+        except Exception:
+            _BUILD_SCHEMA_OK = False
+    return _BUILD_SCHEMA_OK
 
 
 _LIB_METHOD_NAMES = {"get", "append", "extend", "add", "update", "pop", "items", "keys", "values", "join", "split", "format", "copy", "index", "count", "insert", "remove",
